@@ -256,3 +256,162 @@ theorem equal_column_untouched (g : Globals) (hg : g.dialect = .mysql) (rc : Boo
   exact hxa hc'a
 
 end Sqlize
+
+namespace Sqlize
+open Spec
+
+/-- the primary-key statements -/
+def pkStmt : Stmt → Bool
+  | .addPrimaryKey _ _ => true
+  | .dropPrimaryKey _ => true
+  | _ => false
+
+theorem upStmts_pk (i : Index) (tb : String) (s : Stmt) (hs : s ∈ i.upStmts tb) (hp : pkStmt s = true) :
+    i.isPk = true ∧ i.action ≠ .none := by
+  unfold Index.upStmts at hs
+  cases ha : i.action <;> rw [ha] at hs <;> simp only at hs
+  · cases hs
+  · cases hpk : i.isPk
+    · simp [hpk] at hs; subst hs; simp [pkStmt] at hp
+    · exact ⟨rfl, by simp⟩
+  · cases hpk : i.isPk
+    · simp [hpk] at hs; subst hs; simp [pkStmt] at hp
+    · exact ⟨rfl, by simp⟩
+  · cases hpk : i.isPk
+    · simp [hpk] at hs
+      rcases hs with rfl | rfl <;> simp [pkStmt] at hp
+    · exact ⟨rfl, by simp⟩
+  · cases hs
+  · cases hs
+
+/-- **C01 / C02: an unchanged table-level primary key gets no statement**, end to end (MySQL reader model, no inline
+    PRIMARY KEY option).  If the reference engine's primary key of a table is the same on both sides, the index walk of
+    the diffed record — whatever dropped-column list it is called with — prints no ADD / DROP PRIMARY KEY. -/
+theorem equal_pk_untouched (g : Globals) (hg : g.dialect = .mysql) (rc : Bool)
+    (old new : List Stmt) (dbO dbN : DB) (ho : old.all Stmt.elemSafe = true) (hn : new.all Stmt.elemSafe = true)
+    (hto : old.all Stmt.tablePk = true) (htn : new.all Stmt.tablePk = true)
+    (heo : execAll rc [] old = some dbO) (hen : execAll rc [] new = some dbN)
+    (d : Migration) (hd : loadAndDiff g old new = .ok d)
+    (t : String) (tbO tbN : TableSpec) (hfo : dbO.find t = some tbO) (hfn : dbN.find t = some tbN)
+    (hpk : tbO.pk = tbN.pk) :
+    ∃ td ∈ d.tables, td.name = t ∧ td.action = .none ∧
+      ∀ dc, ∃ ss, Table.walkIdx g t true dc td.idxs = .ok ss ∧ ∀ s ∈ ss, pkStmt s = false := by
+  unfold loadAndDiff at hd
+  obtain ⟨o, hlo, hd⟩ := bind_ok hd
+  obtain ⟨n, hln, hd⟩ := bind_ok hd
+  obtain ⟨mo, hmo', hro, heo', hko⟩ := ReaderMysql.run_pk rc old {} [] dbO Rel.empty ElemsOK.empty PkOK.empty ho hto heo
+  obtain ⟨mn, hmn', hrn, hen', hkn⟩ := ReaderMysql.run_pk rc new {} [] dbN Rel.empty ElemsOK.empty PkOK.empty hn htn hen
+  have : mo = o := by
+    have : readScript g {} old = .ok mo := by unfold readScript; rw [hg]; exact hmo'
+    rw [this] at hlo; exact Except.ok.inj hlo
+  subst this
+  have : mn = n := by
+    have : readScript g {} new = .ok mn := by unfold readScript; rw [hg]; exact hmn'
+    rw [this] at hln; exact Except.ok.inj hln
+  subst this
+  obtain ⟨io, to, hgo, hmo, hdo, hnmo, _, _, _⟩ := hro.lookup hfo
+  obtain ⟨i, tn, _, hmn, hdn, hnmn, _, _, _⟩ := hrn.lookup hfn
+  have hmemo := List.mem_of_getElem? hmo
+  have hmemn := List.mem_of_getElem? hmn
+  unfold Migration.diff at hd
+  obtain ⟨ts, h1, hd⟩ := bind_ok hd
+  obtain ⟨td, htd, hspec⟩ := Migration.diffTables1_getElem g.dialect mo mn.tables ts i tn h1 hmn
+  rw [hnmn, hgo] at hspec
+  obtain ⟨ot, hot, hspec⟩ := hspec
+  have : ot = to := by rw [hmo] at hot; exact (Option.some.inj hot).symm
+  subst this
+  have hex : ot.exists_ = true := by
+    unfold Table.exists_; rw [(hro.fresh ot hmemo).2]; rfl
+  rw [if_pos hex] at hspec
+  obtain ⟨t1, ht1, htdeq⟩ := hspec
+  obtain ⟨extra, hext⟩ := Migration.diffTables2_prefix mo.tables _ d hd
+  have htd_mem : td ∈ d.tables := by
+    rw [hext]; exact List.mem_append_left _ (List.mem_of_getElem? htd)
+  have hi_n := hrn.inv.each tn hmemn
+  have hi_o := hro.inv.each ot hmemo
+  have hdi := Table.diff_inv g.dialect tn ot t1 hi_n hi_o (hrn.np tn hmemn) ht1
+  have hname' : td.name = t := by rw [htdeq]; show t1.name = t; rw [hdi.2]; exact hnmn
+  have hrawn := Migration.raws_getElem mn hmn
+  have hrawo := Migration.raws_getElem mo hmo
+  obtain ⟨hlin, _⟩ := hen'.fresh _ (List.mem_of_getElem? hrawn)
+  obtain ⟨hlio, _⟩ := heo'.fresh _ (List.mem_of_getElem? hrawo)
+  have hkN : pkOf tn.idxs = tbN.pk := hkn.at_ hrawn hdn
+  have hkO : pkOf ot.idxs = tbO.pk := hko.at_ hrawo hdo
+  have hsN : PkShape tn.idxs := hkn.shape _ (List.mem_of_getElem? hrawn)
+  have hsO : PkShape ot.idxs := hko.shape _ (List.mem_of_getElem? hrawo)
+  have hfn' := (ReaderMysql.fresh_of_rel hrn hen').tables tn hmemn
+  have hfo' := (ReaderMysql.fresh_of_rel hro heo').tables ot hmemo
+  obtain ⟨hidx, _⟩ := Table.diff_elems g.dialect tn ot t1 hi_n hi_o (hrn.np tn hmemn) hfn'.1 hfo'.1 ht1
+  have htdi : td.idxs = t1.idxs := by rw [htdeq]
+  refine ⟨td, htd_mem, hname', by rw [htdeq], ?_⟩
+  intro dc
+  -- what the walk prints: every record's own statements, the suppressed drops apart
+  have hcond : ∀ x ∈ tn.idxs.map (Table.tagIdx ot) ++
+      (ot.idxs.filter (fun oi => !tn.idxNames.contains oi.name)).map (fun oi => { oi with action := .remove }),
+      (x.typ = .none ∨ x.typ = .unique) ∧
+        (x.action = .none ∨ x.action = .add ∨ x.action = .remove ∨ x.action = .modify) := by
+    intro x hx
+    rcases List.mem_append.mp hx with h | h
+    · obtain ⟨i0, hi0, rfl⟩ := List.mem_map.mp h
+      have hl := hlin i0 hi0
+      unfold Table.tagIdx
+      cases ot.idxs.find? (fun y => y.name == i0.name) with
+      | none => exact ⟨hl.typ, Or.inr (Or.inl hl.add)⟩
+      | some oi =>
+        simp only
+        split
+        · exact ⟨hl.typ, Or.inl rfl⟩
+        · exact ⟨hl.typ, Or.inr (Or.inr (Or.inr rfl))⟩
+    · obtain ⟨oi, hoi, rfl⟩ := List.mem_map.mp h
+      exact ⟨(hlio oi (List.mem_filter.mp hoi).1).typ, Or.inr (Or.inr (Or.inl rfl))⟩
+  have hw := Table.walkIdx_pure_sup g t dc _ hcond
+  refine ⟨_, by rw [htdi, hidx]; exact hw, ?_⟩
+  intro s hs
+  cases hps : pkStmt s with
+  | false => rfl
+  | true =>
+    exfalso
+    obtain ⟨x, hx, hsx⟩ := List.mem_flatMap.mp hs
+    have hsx' : s ∈ x.upStmts t := by
+      unfold Table.supStmts at hsx
+      split at hsx
+      · cases hsx
+      · exact hsx
+    obtain ⟨hxpk, hxa⟩ := upStmts_pk x t s hsx' hps
+    rcases List.mem_append.mp hx with h | h
+    · -- a record of the new side: the key record, which the old side has too
+      obtain ⟨i0, hi0, rfl⟩ := List.mem_map.mp h
+      have hl := hlin i0 hi0
+      have hi0pk : i0.isPk = true := by
+        unfold Table.tagIdx at hxpk
+        cases hf : ot.idxs.find? (fun y => y.name == i0.name) with
+        | none => rw [hf] at hxpk; exact hxpk
+        | some oi => rw [hf] at hxpk; simp only at hxpk; split at hxpk <;> exact hxpk
+      have hi0n : i0.name = pkName := by
+        have := hl.pk; rw [hi0pk] at this; simpa using this.symm
+      have hic : pkOf tn.idxs = i0.cols := pkOf_of_mem hi_n.idxs.nodup hi0 hi0n
+      have hne : pkOf ot.idxs ≠ [] := by rw [hkO, hpk, ← hkN, hic]; exact hl.ne
+      obtain ⟨oi, hoi, hon, hoc⟩ := pkOf_ne_nil hne
+      have heq : oi = i0 := by rw [hsO oi hoi hon, hsN i0 hi0 hi0n, hoc, hkO, hpk, ← hkN, hic]
+      have hfind : ot.idxs.find? (fun y => y.name == i0.name) = some oi := by
+        have := find?_of_mem_nodup (fun y : Index => y.name) ot.idxs oi hi_o.idxs.nodup hoi
+        rw [heq] at this ⊢
+        exact this
+      apply hxa
+      unfold Table.tagIdx
+      rw [hfind, heq]
+      simp
+    · obtain ⟨oi, hoi, rfl⟩ := List.mem_map.mp h
+      obtain ⟨hoi', hnot⟩ := List.mem_filter.mp hoi
+      have hl := hlio oi hoi'
+      have hon : oi.name = pkName := by
+        have := hl.pk
+        have hxpk' : oi.isPk = true := hxpk
+        rw [hxpk'] at this; simpa using this.symm
+      have hoc : pkOf ot.idxs = oi.cols := pkOf_of_mem hi_o.idxs.nodup hoi' hon
+      have hne : pkOf tn.idxs ≠ [] := by rw [hkN, ← hpk, ← hkO, hoc]; exact hl.ne
+      obtain ⟨i0, hi0, hi0n, _⟩ := pkOf_ne_nil hne
+      have : oi.name ∈ tn.idxNames := by rw [hon, ← hi0n]; exact List.mem_map_of_mem hi0
+      simp [this] at hnot
+
+end Sqlize
